@@ -42,7 +42,12 @@ pub struct StreamWriter<W> {
 impl<W> Clone for StreamWriter<W> {
     #[inline]
     fn clone(&self) -> Self {
-        Self { writer: self.writer.clone(), lock: None, head: self.head, head_idx: 0, orig_len: 0 }
+        // The clone starts out idle. It must not inherit the remaining lengths
+        // of a record the original is in the middle of writing.
+        let mut head = self.head;
+        head.content_length = 0;
+        head.padding_length = 0;
+        Self { writer: self.writer.clone(), lock: None, head, head_idx: 0, orig_len: 0 }
     }
 }
 
